@@ -113,4 +113,6 @@ def expanded_samplespace(d, alphabets=None, union=True):
 
     ed = d.__class__(d.outcomes, d.pmf,
                      sample_space=sample_space, base=d.get_base())
+    if joint:
+        ed.set_rv_names(d.get_rv_names())
     return ed
